@@ -226,6 +226,8 @@ package graphsync
 // channel operations: locks held, lock effects (C20); closing never hangs (C09)
 
 //@ func (*graphsync.dtChannel).cancel {C09,C20}
+//@   prompt {C09}
+//@   promises result {C09} -- the returned channel always gets exactly one answer: at once when there is nothing to cancel, else from the goroutine that cancels
 //@   requires ctx != nil
 //@   modifies c.requestID
 //@   guarantee [forgets-request] (self.requestID == nil || self.requestID == old(self.requestID)) && self.requesterCancelled == old(self.requesterCancelled) &&
@@ -237,6 +239,7 @@ package graphsync
 //@   acquires {C20} graphsync.dtChannel.lk
 //@   cancellable ctx
 //@ func (*graphsync.dtChannel).close {C09,C20}
+//@   prompt {C09} -- closing returns promptly whatever the state of the request: every wait has an answer promised
 //@   requires ctx != nil
 //@   modifies c.requestID
 //@   acquires {C20} graphsync.dtChannel.lk
@@ -281,6 +284,7 @@ package graphsync
 //@ func (*graphsync.Transport).ResumeChannel {C20}
 //@   acquires {C20} graphsync.Transport.dtChannelsLk, graphsync.dtChannel.lk
 //@ func (*graphsync.Transport).CloseChannel {C09,C20}
+//@   prompt {C09}
 //@   requires ctx != nil
 //@   acquires {C20} graphsync.Transport.dtChannelsLk, graphsync.dtChannel.lk
 //@ func (*graphsync.Transport).UseStore {C20}
@@ -309,3 +313,7 @@ package graphsync
 //@   requires *ctx != nil
 //@   acquires {C20} graphsync.dtChannel.lk
 //@   requires *ch != nil
+
+//@ func (*graphsync.dtChannel).cancel$1 {C09,C20}
+//@   requires *c != nil && *requestID != nil && *ctx != nil
+//@   promises *errch {C09} -- one answer on every path (the cancel call itself is assumed to return: dependency)
